@@ -421,7 +421,20 @@ func (c *Ctx) meltDecisionTable(r1 string, full bool) {
 		}
 		// --- quote writes
 		for _, s := range setq {
-			args := c.innerArgs(s)
+			// (a write inside a helper that is new on this tree is read once per call that reaches it; an argument
+			// is then one of the values the callers hand in)
+			var args []*Ex
+			for _, ca := range c.siteArgs(s) {
+				if args == nil {
+					args = append([]*Ex{}, ca...)
+					continue
+				}
+				for i := range args {
+					if i < len(ca) && args[i].String() != ca[i].String() {
+						args[i] = mkPhi([]*Ex{args[i], ca[i]})
+					}
+				}
+			}
 			if len(args) < 4 {
 				R.Undecided(r1, fk, "SET_MELTQUOTE "+siteDesc(c, s), c.P.InstrPos(s.Instr), "quote write", "unexpected arity")
 				continue
@@ -442,27 +455,49 @@ func (c *Ctx) meltDecisionTable(r1 string, full bool) {
 					}
 				}
 				R.Check(r1, fk, "SET(PAID) "+siteDesc(c, s)+" stores the answer's preimage", pos, okPre, "PAID is stored together with the preimage of a backend answer", "preimage argument is "+short(pre.String(), 160))
+				// the preimage belongs to the answer whose status was tested: same call as in a success fact on the
+				// path. A write inside a helper that is new on this tree is decided per call chain: the preimage the
+				// chain hands in, against the facts on the way to that call
 				if okPre && s.Direct {
-					// the preimage belongs to the answer whose status was tested: same call as in a success fact on the path
-					same := &Cond{Name: "status == Succeeded of the answer that supplies the preimage", Match: func(f *Fact, o2 *Origins) bool {
-						if !(ln.paySucceeded.Match(f, o2) || ln.lookSucceeded.Match(f, o2)) {
-							return false
+					type chain struct {
+						at  ssa.Instruction
+						pre *Ex
+					}
+					var chains []chain
+					for _, oc := range c.CtxsOf(s.Instr) {
+						d := c.P.Describe(s.Instr)
+						p2 := oc.Of(d.Args[pPre])
+						at := ssa.Instruction(s.Instr)
+						if oc.call != nil && oc.Fn == s.Instr.Parent() && c.P.IsNewFunc(oc.Fn) {
+							at = oc.call
 						}
-						// every preimage alternative's call occurs among the status alternatives
-						for _, a := range pre.Alts() {
-							found := false
-							for _, b := range f.A.Alts() {
-								if b.K == "field" && b.Args[0].Call == a.Args[0].Call {
-									found = true
-								}
-							}
-							if !found {
+						chains = append(chains, chain{at, p2})
+					}
+					ok, why := true, ""
+					for _, ch := range chains {
+						pre2 := ch.pre
+						same := &Cond{Name: "status == Succeeded of the answer that supplies the preimage", Match: func(f *Fact, o2 *Origins) bool {
+							if !(ln.paySucceeded.Match(f, o2) || ln.lookSucceeded.Match(f, o2)) {
 								return false
 							}
+							// every preimage alternative's call occurs among the status alternatives
+							for _, a := range pre2.Alts() {
+								found := false
+								for _, b := range f.A.Alts() {
+									if b.K == "field" && len(a.Args) > 0 && b.Args[0].Call == a.Args[0].Call {
+										found = true
+									}
+								}
+								if !found {
+									return false
+								}
+							}
+							return true
+						}}
+						if ok1, why1 := c.RequireAt(ch.at, same); !ok1 {
+							ok, why = false, why1
 						}
-						return true
-					}}
-					ok, why := c.RequireAt(s.Instr, same)
+					}
 					R.Check(r1, fk, "SET(PAID) "+siteDesc(c, s)+" preimage from the tested answer", pos, ok, "the stored preimage is the one of the answer whose status was Succeeded", why)
 				}
 			case isConst(val, unpaid):
